@@ -258,6 +258,19 @@ def _write_sites(ctx, broken):
         broken.append(("static:option-write-sites", f"the package stores into an options object at {new or gone} — outside the set of "
                        "adjustments the model of C20 knows (constructor / initialisation only); a run could overwrite a user's setting there"))
     ctx.coverage["option_store_sites"] = len(got)
+    # a user setting can only take effect if some code READS it: the set of options the package reads is pinned (props/C20_live.json, from
+    # the same census); an option that is no longer read anywhere (its read replaced by an inline default, say) is a broken tie
+    import json as _json
+    from pathlib import Path as _Path
+    pinned = set(_json.loads((_Path(__file__).parent / "C20_live.json").read_text()))
+    live = set(cen["live"])
+    lost, gained = sorted(pinned - live), sorted(live - pinned)
+    ok = ctx.oblige("static:option-live-set", "translator", not lost and not gained,
+                    f"{len(live)} options are read by the package, the pinned set" if not lost and not gained
+                    else f"options no longer read anywhere: {lost}; newly read: {gained}")
+    if not ok:
+        broken.append(("static:option-live-set", f"the set of options the package reads changed: no longer read {lost}, newly read {gained} — a user's setting "
+                       "of an option nobody reads has no effect"))
     return 0
 
 
